@@ -26,7 +26,8 @@ class PythonExpression(Expression):
         out += STATUS << True
 
     def argumentize(self, out, flags):
-        return Code(self.source_code)
+        # (Keep the expression together: it may be a tuple without parentheses.)
+        return Code('(', self.source_code, ')')
 
 
 class PythonSection:
